@@ -91,6 +91,29 @@ def type_aliases(snap, cur):
     return out
 
 
+def module_aliases(snap, cur):
+    """{new module path: old module path} for modules renamed or moved as a whole: a module of the snapshot none of whose
+    items exists any more, and a module that did not exist in the snapshot, holding items of the same names."""
+    def modules(summary):
+        out = {}
+        for p in summary["adts"]:
+            if "::" in p:
+                out.setdefault(p.rsplit("::", 1)[0], set()).add(p.rsplit("::", 1)[-1])
+        for p, f in summary["fns"].items():
+            if f["kind"] == "Fn" and "::" in p:
+                out.setdefault(p.rsplit("::", 1)[0], set()).add(p.rsplit("::", 1)[-1])
+        return out
+    om, nm = modules(snap), modules(cur)
+    gone = {m: items for m, items in om.items() if m not in nm}
+    came = {m: items for m, items in nm.items() if m not in om}
+    out = {}
+    for m, items in gone.items():
+        cands = [n for n, it in came.items() if it == items]
+        if len(cands) == 1 and len([m2 for m2, it in gone.items() if it == items]) == 1:
+            out[cands[0]] = m
+    return out
+
+
 def member_aliases(snap, cur):
     """({(adt, new variant): old variant}, {(adt, variant index, new field): old field}) for ADTs present on both sides."""
     va, fa = {}, {}
@@ -194,7 +217,7 @@ def normalise(texts, lib_key="divan"):
     """texts: {file name: JSON text of a fact file}. Returns ({file name: parsed data}, report) with renamed items of the
     library crate mapped back to their snapshot names in every file."""
     snap = load_snapshot()
-    report = {"types": {}, "variants": {}, "fields": {}, "fns": {}}
+    report = {"modules": {}, "types": {}, "variants": {}, "fields": {}, "fns": {}}
     parsed = {f: json.loads(t) for f, t in texts.items()}
     if snap is None or os.environ.get("VERIF_NO_RENAME"):
         return parsed, report
@@ -202,9 +225,22 @@ def normalise(texts, lib_key="divan"):
     if len(lib) != 1:
         return parsed, report
     cur = summarise(parsed[lib[0]])
-    # 1. types
-    ta = type_aliases(snap, cur)
-    if ta:
+    # 0. modules renamed / moved as a whole
+    ma = module_aliases(snap, cur)
+    if ma:
+        for f in texts:
+            t = texts[f]
+            for n, o in sorted(ma.items(), key=lambda kv: -len(kv[0])):
+                t = re.sub(r"(?<![%s:])%s::" % (_ID, re.escape(n)), (o + "::").replace("\\", "\\\\"), t)
+            texts[f] = t
+        parsed = {f: json.loads(t) for f, t in texts.items()}
+        cur = summarise(parsed[lib[0]])
+        report["modules"] = ma
+    # 1. types (to a fixed point: the shape of one renamed type may mention another)
+    for _round in range(4):
+        ta = type_aliases(snap, cur)
+        if not ta:
+            break
         for f in texts:
             t = texts[f]
             for n, o in ta.items():
@@ -212,7 +248,7 @@ def normalise(texts, lib_key="divan"):
             texts[f] = t
         parsed = {f: json.loads(t) for f, t in texts.items()}
         cur = summarise(parsed[lib[0]])
-        report["types"] = ta
+        report["types"].update(ta)
     # 2. variants and fields (structural; a new name is only mapped when no other ADT uses it as a member name)
     va, fa = member_aliases(snap, cur)
     used_v, used_f = {}, {}
